@@ -81,6 +81,8 @@ pub enum Op {
     /// a search whose stream the caller does not simply read to the end
     SearchX { node: usize, ih: [u8; 20], announce: bool, mode: Consume },
     Bootstrapped { node: usize },
+    /// bootstrapped() whose future the caller drops after `cancel_after_ms` if still unresolved
+    BootstrappedX { node: usize, cancel_after_ms: Ms },
     Sample { node: usize, table: bool },
     SampleEvery { node: usize, period_ms: Ms, count: u32, table: bool },
     Probe { from: SocketAddr, to: SocketAddr, msg: ProbeMsg, timeout_ms: Ms },
@@ -453,6 +455,16 @@ impl Shared {
                     None => false,
                 };
                 self.net.api(step, ApiEv::BootDone { ok });
+            }
+            Op::BootstrappedX { node, cancel_after_ms } => {
+                self.net.api(step, ApiEv::BootCall { node: *node });
+                match self.node(*node) {
+                    Some(d) => match tokio::time::timeout(Duration::from_millis(*cancel_after_ms), d.bootstrapped()).await {
+                        Ok(ok) => self.net.api(step, ApiEv::BootDone { ok }),
+                        Err(_) => self.net.api(step, ApiEv::Note("boot_cancelled".into())),
+                    },
+                    None => self.net.api(step, ApiEv::BootDone { ok: false }),
+                }
             }
             Op::Sample { node, table } => self.sample(*node, step, *table).await,
             Op::SampleEvery { node, period_ms, count, table } => {
